@@ -183,10 +183,14 @@ def check_case(case, opts):
             # or in another form; a later unflagged twin may share with them or with an unflagged one.  So among the unflagged files
             # of a group at most one (the first one packed in its storage form) may sit at a location nobody else uses.
             fl = {q: (img.paths[q].frag_idx, img.paths[q].frag_off) for q in ext if img.paths[q].frag_idx != sqfsimg.NOFRAG}
-            lonely = [p for p in ps if p not in flagged and not any(q != p and locs[q] == locs[p] for q in ps)
-                      and not (locs[p][0] is None and (locs[p][2], locs[p][3]) in fl.values())]
-            if len(lonely) > 1:
-                raise Violation("identical files %r do not share storage: %r" % (sorted(lonely)[:3], sorted((locs[p] for p in lonely), key=repr)[:3]), None, sig="dedup-missing")
+            # Block run and tail end are deduplicated independently (the blocks of a file may be found at an unflagged twin, its tail at
+            # the copy a dont_deduplicate twin was forced to store), so the two parts are judged separately.
+            lonely_b = [p for p in ps if p not in flagged and locs[p][0] is not None and not any(q != p and locs[q][:2] == locs[p][:2] for q in ps)]
+            lonely_t = [p for p in ps if p not in flagged and locs[p][2] != sqfsimg.NOFRAG and not any(q != p and locs[q][2:] == locs[p][2:] for q in ps)
+                        and not (locs[p][2:] in fl.values())]
+            for lonely, part in ((lonely_b, "blocks"), (lonely_t, "tail ends")):
+                if len(lonely) > 1:
+                    raise Violation("identical files %r do not share their %s: %r" % (sorted(lonely)[:3], part, sorted((locs[p] for p in lonely), key=repr)[:3]), None, sig="dedup-missing")
         # how many collisions did the weak checksum really force?
         mask = (1 << bits) - 1
         blocks, tails = {}, {}
